@@ -682,10 +682,10 @@ func shutdownScenario(name string, watchFail bool, q bool, bounds []int) explore
 func trackingScenario(bounds []int) explore.Scenario {
 	tSen := conformance.SentenceResourceType
 	return explore.Scenario{
-		Name:     "tracking/failed-sweep-then-overlap",
+		Name:     "tracking/panic-failed-sweep-then-overlap",
 		MaxExecs: 250000,
 		HB:       true,
-		Desc:     "two probe controllers using StartTrackingOutputs/CleanupOutputs; F's CleanupOutputs fails twice (a foreign finalizer on a stale output) and then recovers; afterwards both reconcile concurrently: the healthy controller's outputs must survive its own sweep and F's must be exactly its current ones",
+		Desc:     "two probe controllers using StartTrackingOutputs/CleanupOutputs; F's first pass panics between the two calls, then its CleanupOutputs fails twice (a foreign finalizer on a stale output) and then recovers; afterwards both reconcile concurrently: the healthy controller's outputs must survive its own sweep and F's must be exactly its current ones",
 		Bounds:   bounds,
 		Body: func(x *explore.X) {
 			ctx, cancel := vctx.WithCancel(context.Background())
@@ -706,8 +706,23 @@ func trackingScenario(bounds []int) explore.Scenario {
 			in := []controller.Input{{Namespace: hx.NS, Type: tInt, Kind: controller.InputWeak}}
 			fFails := 0
 			f := &px.Probe{NameV: "F", InputsV: in, OutputsV: []controller.Output{{Type: tStr, Kind: controller.OutputExclusive}}}
-			f.OnEvent = func(ctx context.Context, r controller.Runtime, _ int) error {
+			injected, afterPanic := false, ""
+			f.OnEvent = func(ctx context.Context, r controller.Runtime, _ int) (err error) {
+				defer func() {
+					if p := recover(); p != nil {
+						if s := fmt.Sprint(p); s != "injected panic while tracking outputs" {
+							vrt.TouchKey("c16.tracking", true)
+							afterPanic = s
+						}
+						panic(p)
+					}
+				}()
 				r.StartTrackingOutputs()
+				if !injected {
+					// the very first pass dies between StartTrackingOutputs and CleanupOutputs
+					injected = true
+					panic("injected panic while tracking outputs")
+				}
 				if err := r.Modify(ctx, conformance.NewStrResource(hx.NS, "f-cur", ""), func(res resource.Resource) error {
 					res.(*conformance.StrResource).SetValue("cur")
 					return nil
@@ -747,6 +762,9 @@ func trackingScenario(bounds []int) explore.Scenario {
 					break
 				}
 				vrt.FireNextTimer()
+			}
+			if afterPanic != "" {
+				x.FailKey("tracking/restart-after-panic", "F panicked once while tracking outputs; its restarted pass did not get a fresh start: %s", afterPanic)
 			}
 			if fFails < 2 {
 				x.FailKey("harness/tracking", "F's sweep failed %d times, expected at least 2 (the scenario does not reach its start state)", fFails)
